@@ -40,6 +40,11 @@ CHECKS = {
          "lengths, reduction of byte strings of every length 0..200 in both endiannesses, flag (de)serialisation for "
          "Empty/SW/TE flags incl. mutated top bits, decimal strings, ordering, hashing; all expected values computed by "
          "TLC from the integer the harness chose before it entered the library.", "5 C11"),
+ "C06": ("Toy: In2E characterises 2E (= image of doubling) and is equivalent to 'decodes back to itself and has order | r' "
+         "on every curve point of every toy curve. Real: from_random_bytes on structured (y = 0, +-1, small, sign flag, all "
+         "lengths 0..64) and random strings, the four samplers on seeded ChaCha streams, every constant and conversion, "
+         "normalize_batch / batch_convert_to_mul_base on mixed representatives, all deserialisers; every point handed out is "
+         "logged and TLC checks OnCurve and In2E (Euler criterion) on it.", "5 C06"),
  "C07": ("Toy: the coded Elligator map = elligatorSpec modulo the coset for every r0, both square-root signs, two zetas per "
          "field; sign symmetry; output in 2E; num*den != 0. Real: 0, +-1, +-2..16, zeta, 2^k, random r0 and pairs on both "
          "builds; every output recomputed by TLC from the unoptimised ElligatorSpec.", "5 C07"),
